@@ -25,6 +25,8 @@ pub open spec fn dep_ok(mt: MediaType, gk: GraphKind, k: Seq<char>, d: Dependenc
     // code-only graphs record no type information
     &&& (!inc_types(gk) ==> d.maybe_type is None && d.maybe_deno_types_specifier is None
             && forall|i: int| 0 <= i < d.imports@.len() ==> (#[trigger] d.imports@[i]).kind != ImportKind::TsType && d.imports@[i].kind != ImportKind::TsModuleAugmentation)
+    // the `type` attribute: a dependency one of whose imports (of whatever kind) carries one has an attribute type recorded
+    &&& (forall|i: int| 0 <= i < d.imports@.len() && attr_has((#[trigger] d.imports@[i]).attributes, "type"@) ==> d.maybe_attribute_type is Some)
 }
 pub open spec fn deps_ok(mt: MediaType, gk: GraphKind, m: IndexMap<String, Dependency>) -> bool {
     im_keys(m).len() == im_vals(m).len() && forall|i: int| 0 <= i < im_keys(m).len() ==> dep_ok(mt, gk, (#[trigger] im_keys(m)[i])@, im_vals(m)[i])
@@ -39,12 +41,15 @@ pub proof fn lemma_dep_ok_filter(mt: MediaType, gk: GraphKind, k: Seq<char>, d0:
     requires
         dep_ok(mt, gk, k, d0),
         d1.maybe_code == d0.maybe_code && d1.maybe_type == d0.maybe_type && d1.maybe_deno_types_specifier == d0.maybe_deno_types_specifier
-            && d1.is_dynamic == d0.is_dynamic,
+            && d1.is_dynamic == d0.is_dynamic && d1.maybe_attribute_type == d0.maybe_attribute_type,
         forall|j: int| 0 <= j < d1.imports@.len() ==> d0.imports@.contains(#[trigger] d1.imports@[j]),
         forall|i: int| 0 <= i < d0.imports@.len() && is_code_import(mt, #[trigger] d0.imports@[i]) ==> d1.imports@.contains(d0.imports@[i]),
     ensures dep_ok(mt, gk, k, d1),
 {
     assert forall|j: int| 0 <= j < d1.imports@.len() implies (#[trigger] d1.imports@[j]).specifier@ == k by {
+        let i = choose|i: int| 0 <= i < d0.imports@.len() && d0.imports@[i] == d1.imports@[j];
+    }
+    assert forall|j: int| 0 <= j < d1.imports@.len() && attr_has((#[trigger] d1.imports@[j]).attributes, "type"@) implies d1.maybe_attribute_type is Some by {
         let i = choose|i: int| 0 <= i < d0.imports@.len() && d0.imports@[i] == d1.imports@[j];
     }
     if d1.is_dynamic {
@@ -87,10 +92,16 @@ pub proof fn lemma_dep_ok_push(mt: MediaType, gk: GraphKind, k: Seq<char>, d0: D
         is_code_import(mt, im) ==> !(d1.maybe_code is None) && d1.is_dynamic == (if d0.maybe_code is None { im.is_dynamic } else { d0.is_dynamic && im.is_dynamic }),
         !is_code_import(mt, im) ==> d1.is_dynamic == d0.is_dynamic && d1.maybe_code == d0.maybe_code,
         !inc_types(gk) ==> d1.maybe_type is None && d1.maybe_deno_types_specifier is None && im.kind != ImportKind::TsType && im.kind != ImportKind::TsModuleAugmentation,
+        // the attribute type: kept once recorded, and recorded when this import carries a `type` attribute
+        d0.maybe_attribute_type is Some ==> d1.maybe_attribute_type is Some,
+        attr_has(im.attributes, "type"@) ==> d1.maybe_attribute_type is Some,
     ensures dep_ok(mt, gk, k, d1),
 {
     let n = d0.imports@.len() as int;
     assert(d1.imports@[n] == im);
+    assert forall|i: int| 0 <= i < d1.imports@.len() && attr_has((#[trigger] d1.imports@[i]).attributes, "type"@) implies d1.maybe_attribute_type is Some by {
+        if i < n { assert(d1.imports@[i] == d0.imports@[i]); }
+    }
     assert forall|i: int| 0 <= i < n implies d1.imports@[i] == d0.imports@[i] by { }
     if d1.is_dynamic {
         assert forall|i: int| 0 <= i < d1.imports@.len() && is_code_import(mt, #[trigger] d1.imports@[i]) implies d1.imports@[i].is_dynamic by {
@@ -145,6 +156,7 @@ pub proof fn lemma_dep_filtered_refl(d: Dependency)
 /// removing module-augmentation imports from a dependency (the closure of the final `retain`)
 pub open spec fn dep_filtered(d0: Dependency, d1: Dependency) -> bool {
     &&& d1.maybe_code == d0.maybe_code && d1.maybe_type == d0.maybe_type && d1.maybe_deno_types_specifier == d0.maybe_deno_types_specifier && d1.is_dynamic == d0.is_dynamic
+        && d1.maybe_attribute_type == d0.maybe_attribute_type
     &&& forall|j: int| 0 <= j < d1.imports@.len() ==> d0.imports@.contains(#[trigger] d1.imports@[j])
     &&& forall|i: int| 0 <= i < d0.imports@.len() && (#[trigger] d0.imports@[i]).kind != ImportKind::TsModuleAugmentation ==> d1.imports@.contains(d0.imports@[i])
 }
